@@ -53,6 +53,15 @@ func sid(name string, tags gostatsd.Tags) string {
 
 func dur(e int) time.Duration { return time.Duration(e) * time.Second }
 
+// gaugeValue: in every other history a gauge is sent with one constant value (a datapoint that repeats the value still counts as the
+// last datapoint of the series); in the others every datapoint has a value of its own
+func gaugeValue(idx, id int) float64 {
+	if idx%2 == 1 {
+		return 7
+	}
+	return float64(id)
+}
+
 func TestCases(t *testing.T) {
 	path := os.Getenv("VERIF_CASES")
 	if path == "" {
@@ -118,7 +127,7 @@ func TestCases(t *testing.T) {
 							if w, ok := see(n, "gauge"); ok {
 								okv := false
 								for _, g := range w.Gauge {
-									okv = okv || v.Value == float64(g)
+									okv = okv || v.Value == gaugeValue(idx, g)
 								}
 								if !okv {
 									problems = append(problems, fmt.Sprintf("value:gauge|gauge %s = %v want last value %v", n, v.Value, w.Gauge))
@@ -183,6 +192,7 @@ func TestCases(t *testing.T) {
 						m.Type = gostatsd.COUNTER
 					case "gauge":
 						m.Type = gostatsd.GAUGE
+						m.Value = gaugeValue(idx, id)
 					case "set":
 						m.Type, m.StringValue = gostatsd.SET, fmt.Sprint("m", id)
 					default:
